@@ -285,6 +285,10 @@ class Spec:
                 klass = "iter-wrap" if o.count >= U32 else "iter"
                 # getTimesCalled() is an unsigned int; the property speaks about the answer only
                 exp = "r=%d tc=%d" % (1 if o.count > o.n else 0, o.count % U32)
+                if o.count >= U32:
+                    # beyond the range of getTimesCalled() only the answer is judged
+                    exp = exp.split()[0]
+                    out = out.split()[0] if out.startswith("r=") and " tc=" in out else out
                 if out != exp:
                     return ("evaluation number %d of an iteration condition with n=%d answered %r, the property says %r%s"
                             % (o.count, o.n, out, exp, " (the unsigned counter wrapped at 2^32)" if klass == "iter-wrap" else ""),
@@ -1079,7 +1083,7 @@ def run(ck):
     jobs = []
     for name, script in corpus():
         jobs.append(("corpus", script))
-    n_logic, n_iter, n_wrap, n_cost, n_timed, n_adv = (160, 50, 8, 120, 80, 20) if quick else (1600, 500, 40, 1500, 800, 150)
+    n_logic, n_iter, n_wrap, n_cost, n_timed, n_adv = (400, 120, 12, 400, 240, 40) if quick else (4000, 1200, 60, 4000, 2400, 300)
     for i in range(n_logic):
         r = ck.rng.fork("logic%d" % i)
         jobs.append(("logic", gen_logic(r, r.choice([15, 40, 90, 200]))))
